@@ -18,7 +18,10 @@ CLAIMED = {
         ref='DESIGN.md §6 C01', technique='Coq proof (refinement packer -> bit-string spec) + model/implementation correspondence by vm_compute'),
     'C12': dict(
         text='Theorems: a value outside the signed-or-unsigned range of its field width is rejected, a value inside is assembled '
-             '(all widths, all values); tied to the code by the same correspondence as C01.',
+             '(all widths, all values); min/max, enumeration, zone, same-page and relative-offset constraints are satisfied by every '
+             'value a part produces. Tied to the code by the same correspondence as C01 plus whole programs at the boundaries of '
+             'generated constraint configurations. An oracle states the property for the operands of macros on the implementation; '
+             'what it finds there is the open known finding F1 (known_findings.json), printed as KNOWN-FINDING.',
         ref='DESIGN.md §6 C12', technique='Coq proof (accept iff fits) + model/implementation correspondence by vm_compute'),
     'C07': dict(
         text='Coq model of the expression lexer (re.findall semantics of the token pattern), recursive-descent parser and '
@@ -86,7 +89,9 @@ CLAIMED = {
     'C13': dict(
         text='Theorems: the selected variant is the first in definition order that accepts (and nothing is selected if none does); '
              'listed combinations before operand sets; disallowed combinations skipped; alternatives of a set tried in the order of '
-             'the documented type priority, stable w.r.t. definition order; a register name is never accepted as numeric/address. '
+             'the documented type priority, stable w.r.t. definition order; a register name (in any letter case) is never accepted as '
+             'numeric/address; matching has two outcomes only - no alternative, listed combination or operand set can stop the ones '
+             'after it from being tried. '
              'Tied to the code by deliberately ambiguous generated ISA definitions (overlapping variants, asymmetric disallowed '
              'pairs, all operand types) assembled by the real Assembler and by the matching model.',
         ref='DESIGN.md §6 C13', technique='Coq proofs over operand-matching model + generated-ISA whole-program correspondence'),
